@@ -546,6 +546,46 @@ def tree_checks_ticker_options():
     return "attempted" if m.group(1).strip() else False      # some check of these options exists, not F31's
 
 
+TIE_CONNS = ["Nsq.Tie.ConnsStats"]   # what tcpServer.Handle stores in conns = what GetStats / Close assert (shared with C10)
+
+
+def halfopen_leg(ctx, corr_broken):
+    """TCP connections that have not completed the protocol magic (nothing sent / 1-3 bytes / a wrong magic sent
+    slowly / a bare magic) while /stats is requested in every format and filter and a normal producer/consumer pair
+    works; Exit with such connections open. Model-free oracles only (harness/e3/halfopen_test.go). Used by C09
+    ("other clients are unaffected") and C10 (no_500). Lesson of /repo b3a615a -> 919b356."""
+    if ctx.replay_in:
+        return
+    hbin = ctx.go_test_binary("nsqd", ["e3/halfopen_test.go"], "e3ho")
+    if not hbin:
+        ctx.broken_ties.append("harness e3/halfopen_test.go does not compile against the current tree")
+        corr_broken.append("half-open harness build")
+        return
+    rc, out = ctx.run_cmd([hbin, "-test.run", "^TestVerifE3HalfOpen$", "-test.count=1", "-test.timeout=900s"],
+                          timeout=1000, env={"VERIF_SEED": ctx.seed, "VERIF_N": ctx.budget(3, 12), "VERIF_OUT": ctx.work,
+                                             "VERIF_REPO": REPO})
+    fails, okl = harness_lines(ctx, out, "halfopen")
+    seen = set()
+    for l in fails:
+        m = re.match(r"ORACLE-FAIL key=(\S+)", l)
+        if m and m.group(1) in seen:
+            continue
+        seen.add(m.group(1) if m else l)
+        report_oracle_fail(ctx, l)
+    if "panic:" in out or "fatal error:" in out:
+        ctx.violation("halfopen-panic", "the nsqd process died while half-open TCP connections existed and /stats was requested",
+                      out[-4000:])
+    elif rc != 0 and not fails or (not okl and not fails):
+        ctx.log("half-open harness failed (rc=%s):\n%s" % (rc, out[-3000:]))
+        corr_broken.append("half-open harness exit %s" % rc)
+    m = re.search(r"ORACLE-OK halfopen requests=(\d+) rounds=(\d+)", out)
+    if m:
+        ctx.evaluations += int(m.group(1))
+        ctx.corr["halfopen"] = m.group(0)
+        for k in range(int(m.group(2))):
+            ctx.count_case("halfopen round %d seed %s" % (k, ctx.seed), nontrivial=True)
+
+
 def ticker_leg(ctx, binp, corr_broken):
     """B8: the two option values messagePump hands to time.NewTicker, each in a SUBPROCESS (the daemon may
     die). Model: Nsq.Model.ProtoEnv.firstConnection checked o (checked = the tree has F31's checks)."""
@@ -720,10 +760,11 @@ def run(ctx):
     ctx.gen("e1_names")   # the translated isValidName / IsValidTopicName / IsValidChannelName (kind strfunc) for Nsq.Tie.NamesFn
     ctx.gen("e3_protofunc")   # the four clientV2 setters translated (kind pfunc) for Nsq.Tie.ProtoFunc
     ctx.gen("e3_audit09")     # PutMessages / AddClient / CheckAuth / AUTH tail / NewTicker / New option checks
-    ok, log = ctx.lean_build(TIE + TIE_AUDIT + PROPS + PROPS_AUDIT)
+    ctx.gen("e3_conns")       # tcpServer.Handle's conns.Store vs the type assertions of GetStats / Close
+    ok, log = ctx.lean_build(TIE + TIE_AUDIT + TIE_CONNS + PROPS + PROPS_AUDIT)
     if not ok:
-        ctx.lean_obligation_failed("lake build " + " ".join(TIE + TIE_AUDIT + PROPS + PROPS_AUDIT), log[-1500:])
-    ctx.lean_audit(PROPS + PROPS_AUDIT, TIE + TIE_AUDIT)
+        ctx.lean_obligation_failed("lake build " + " ".join(TIE + TIE_AUDIT + TIE_CONNS + PROPS + PROPS_AUDIT), log[-1500:])
+    ctx.lean_audit(PROPS + PROPS_AUDIT, TIE + TIE_AUDIT + TIE_CONNS)
     if ctx.thorough():
         ctx.leanchecker(PROPS + PROPS_AUDIT)
     corr_broken = []
@@ -783,6 +824,7 @@ def run(ctx):
         identify_leg(ctx, binp, corr_broken)
         audit_leg(ctx, binp, corr_broken)
         ticker_leg(ctx, binp, corr_broken)
+    halfopen_leg(ctx, corr_broken)
     if (ctx.broken_ties or corr_broken) and not ctx.violations:
         ctx.broken_without_input(ctx.broken_ties + corr_broken,
                                  "search: %d generated operations, the probe/limit/number oracles and the "
